@@ -302,4 +302,28 @@ Section SearchFacts.
       intros d' [<-|Hin]; auto. apply IH; auto.
     - rewrite (H d (or_introl eq_refl)). apply IH. intros d' Hd. apply H. right. exact Hd.
   Qed.
+
+  (* the including file's own directory wins over every -I directory, whatever they contain and however many
+     there are (also when it is itself one of them) ... *)
+  Theorem search_own_first cwd paths name a :
+    find_file A files (join cwd name) = Some a ->
+    search A files cwd paths name = Some (join cwd name, a).
+  Proof. intro H. unfold search. cbn [search_in]. rewrite H. reflexivity. Qed.
+
+  (* ... and when it does not hold the file, the result is that of the -I directories alone, in the order given *)
+  Theorem search_falls_back cwd paths name :
+    find_file A files (join cwd name) = None ->
+    search A files cwd paths name = search_in A files paths name.
+  Proof. intro H. unfold search. cbn [search_in]. rewrite H. reflexivity. Qed.
+
+  (* -I directories behind the first hit are irrelevant: adding, removing or reordering them changes nothing *)
+  Theorem search_ignores_later before d after after' name a :
+    (forall d', In d' before -> find_file A files (join d' name) = None) ->
+    find_file A files (join d name) = Some a ->
+    search_in A files (before ++ d :: after) name = search_in A files (before ++ d :: after') name.
+  Proof.
+    intros Hb Hd. induction before as [|b before IH]; cbn [app search_in].
+    - rewrite Hd. reflexivity.
+    - rewrite (Hb b (or_introl eq_refl)). apply IH. intros d' Hin. apply Hb. right. exact Hin.
+  Qed.
 End SearchFacts.
